@@ -176,6 +176,7 @@ class PipelineSim(WorldBase):
             ntens = 1 if g.random() < 0.7 else 2
             tens = []
             trace_fns = {}
+            line_elems = g.choice([1, 1, 2, 3, 4])
             for ti in range(ntens):
                 name = "BC"[ti]
                 # tensor ranks: the last loop rank plus a subset of the outer ones
@@ -184,10 +185,9 @@ class PipelineSim(WorldBase):
                          for r in order}
                 fmt = g.choice(["U", "C"])
                 spec = self._gen_trace(g, name, order, tr, shape, fmt, with_write=(kind == "buffet" and g.random() < 0.4)
-                                       or (kind == "cache" and g.random() < 0.15))
+                                       or (kind == "cache" and g.random() < 0.15), epl=line_elems)
                 evs.append(["trace", spec])
                 tens.append(spec)
-            line_elems = g.choice([1, 1, 2, 3, 4])
             bindings = []
             for spec in tens:
                 b = {"tensor": spec["tensor"], "rank": order[-1], "type": "payload"}
@@ -225,7 +225,7 @@ class PipelineSim(WorldBase):
                                            "id": "c0"}]]
         return evs
 
-    def _gen_trace(self, g, name, order, tranks, shape, fmt, with_write=False, iter_like=False, density=None):
+    def _gen_trace(self, g, name, order, tranks, shape, fmt, with_write=False, iter_like=False, density=None, epl=12):
         """rows of a well-formed trace of accesses to tensor `name` at the last loop rank"""
         nr = len(order)
         last = order[-1]
@@ -256,10 +256,10 @@ class PipelineSim(WorldBase):
                     rows.append(row)
                     if with_write and g.random() < 0.6:
                         if g.random() < 0.25:
-                            # staging area: beyond the shape, starting on a line boundary for every line
+                            # staging area: beyond the shape, starting on a line boundary of the line
                             # size used (the models assume an element lives on exactly one line and
                             # lines do not mix fiber and staging positions)
-                            wpos = ((S + 11) // 12) * 12 + staging
+                            wpos = ((S + epl - 1) // epl) * epl + staging
                             staging += 1
                         else:
                             wpos = pos
